@@ -1095,3 +1095,30 @@ package tsm1
 //@   ensures still_sorted: all(i, 0, len(c.cache.values), all(j, i+1, len(c.cache.values), value_ts(c.cache.values[i]) < value_ts(c.cache.values[j]))) && all(i, 0, len(c.tsm.values), all(j, i+1, len(c.tsm.values), c.tsm.values[i].unixnano < c.tsm.values[j].unixnano)) && all(i, 0, len(c.cache.values), value_ts(c.cache.values[i]) > (0 - 9223372036854775807 - 1)) && all(i, 0, len(c.tsm.values), c.tsm.values[i].unixnano > (0 - 9223372036854775807 - 1)) && c.cache.pos < len(c.cache.values)
 
 // ---- GENERATED-CURSORS END ----
+
+// ---- C19: lock discipline of the cache and the file store (swept over every function of the package) ----
+//@ guarded Cache.store by mu
+//@ guarded Cache.snapshot by mu
+//@ guarded Cache.snapshotting by mu
+//@ guarded Cache.snapshotAttempts by mu
+//@ guarded FileStore.files by mu
+//@ guarded FileStore.lastFileStats by mu
+//@ guarded FileStore.currentGeneration by mu
+//@ owned Cache.snapshot
+
+// helpers entered with the lock held (checked at every static call site by the sweep)
+//@ func (*Cache).updateSnapshots
+//@   holds c.mu
+//@ func (*FileStore).cost
+//@   holds_r f.mu
+//@ func (*FileStore).locations
+//@   holds_r f.mu
+//@ func newKeyCursor
+//@   holds_r fs.mu
+// entry points that are not used on a shared cache
+//@ func (*Cache).Write
+//@   reads_unlocked Cache.store not called outside tests and the offline import tool; the engine writes through WriteMulti, which reads the store under the lock
+//@ func (*Cache).values
+//@   reads_unlocked Cache.store test helper, no caller in the package
+//@ func (*Cache).Split
+//@   reads_unlocked Cache.store called by the compactor on the snapshot it is writing, which nobody modifies while it is flushed
